@@ -1,1 +1,80 @@
-(* C04 *)
+(* C04 - template calls and block (Content) arguments compose.  Theorems only. *)
+From Coq Require Import Lia.
+From Ructe Require Import Nom NomFacts Utf8 Spacelike Expression TemplateExpr Template Emit Tables Io IoProofs Exec
+                          ParserProofs TextProofs EmitProofs ExecProofs.
+Local Open Scope list_scope.
+
+Section Parse.
+  Variable E : nt -> parser bytes.
+  Variable ln n : nat.
+  (* `@:` hands over to the call parser: a name, then a parenthesised, comma-separated list of Rust
+     expressions and `{ ... }` blocks *)
+  Theorem call_form : forall i,
+    texpr_gram E ln (S n) TE (b "@:" ++ i) =
+    call_branch E (fun j => texpr_gram E ln n TE j) i.
+  Proof. reflexivity. Qed.
+End Parse.
+
+(* emission: `name(_ructe_out_.by_ref(), args..)?;` with Rust arguments verbatim, an empty block as
+   `|_| Ok(())`, and any other block (one holding only a comment included) as a closure that runs
+   the block's statements and ends in Ok(()) *)
+Theorem block_argument_emission : forall (ue : N -> bool),
+  (forall name args, write_code ue (TCall name args) = name ++ b "(_ructe_out_.by_ref()" ++ args_text ue args ++ b ")?;" ++ nl) /\
+  (forall s, arg_text ue (ARust s) = s) /\
+  arg_text ue (ABody []) = b "|_| Ok(())" /\
+  (forall x v, arg_text ue (ABody (x :: v)) =
+     b "#[allow(clippy::used_underscore_binding)] |mut _ructe_out_| {" ++ nl ++ codes ue (x :: v) ++ b "Ok(())" ++ nl ++ b "}" ++ nl) /\
+  arg_text ue (ABody [TComment]) = b "#[allow(clippy::used_underscore_binding)] |mut _ructe_out_| {" ++ nl ++ b "Ok(())" ++ nl ++ b "}" ++ nl.
+Proof.
+  intros ue. split; [apply write_code_call|]. repeat split; reflexivity.
+Qed.
+
+(* a parameter declared exactly `Content` becomes `impl FnOnce(&mut W) -> io::Result<()>` (see C13) *)
+Theorem content_param_rewrite :
+  arg_code (b "c: Content") = b "c: impl FnOnce(&mut W) -> io::Result<()>".
+Proof. vm_compute. reflexivity. Qed.
+
+Section Run.
+  Variable env : Type.
+  Variable o : oracle env.
+
+  (* a call renders, at that position, what the callee's body renders in the callee's environment
+     for those Rust arguments, with the caller's blocks bound -- together with the CALLER's
+     environment and the caller's own blocks -- to the callee's Content parameters *)
+  Theorem exec_call : forall fuel e cs name args rest body e' names,
+    lookup_clo env name cs = None ->
+    o_call env o e name (rust_args args) = Some (body, e', names) ->
+    render env o (S fuel) e cs (TCall name args :: rest) =
+      oseq (render env o fuel e' (zip_clos env names (block_args args) e cs) body) (render env o fuel e cs rest).
+  Proof. intros fuel e cs name args rest body e' names L C. cbn [render]. now rewrite L, C. Qed.
+
+  (* when the callee invokes a Content parameter (`@:c()`), the block runs with the variables of
+     the place where it was written, whatever the callee's own environment is *)
+  Theorem exec_block_in_caller_env : forall fuel e_callee cs pname items e_caller cs_caller rest,
+    lookup_clo env pname cs = Some (Clo env items e_caller cs_caller) ->
+    render env o (S fuel) e_callee cs (TCall pname [] :: rest) =
+      oseq (render env o fuel e_caller cs_caller items) (render env o fuel e_callee cs rest).
+  Proof. intros fuel e_callee cs pname items e_caller cs_caller rest L. cbn [render]. now rewrite L. Qed.
+
+  (* this composes through an intermediate template that forwards its block ({@:c()}): the caller
+     passes blk to mid(c), mid passes {@:c()} to leaf(d), leaf invokes @:d() -- and blk still
+     renders with the variables (and blocks) of the original caller *)
+  Theorem forwarded_block_still_runs_in_the_original_env : forall fuel e0 blk e1 e2 cs0 out,
+    let cs1 := zip_clos env [b "c"] [blk] e0 cs0 in
+    let cs2 := zip_clos env [b "d"] [[TCall (b "c") []]] e1 cs1 in
+    render env o fuel e0 cs0 blk = Some out ->
+    render env o (S (S (S fuel))) e2 cs2 [TCall (b "d") []] = Some out.
+  Proof.
+    intros fuel e0 blk e1 e2 cs0 out cs1 cs2 H.
+    rewrite (exec_block_in_caller_env (S (S fuel)) e2 cs2 (b "d") [TCall (b "c") []] e1 cs1 []) by reflexivity.
+    rewrite (exec_block_in_caller_env (S fuel) e1 cs1 (b "c") blk e0 cs0 []) by reflexivity.
+    rewrite (render_mono env o _ _ _ _ _ H). cbn [render oseq]. now rewrite !app_nil_r.
+  Qed.
+End Run.
+
+Redirect "assumptions/C04.call_form" Print Assumptions call_form.
+Redirect "assumptions/C04.block_argument_emission" Print Assumptions block_argument_emission.
+Redirect "assumptions/C04.content_param_rewrite" Print Assumptions content_param_rewrite.
+Redirect "assumptions/C04.exec_call" Print Assumptions exec_call.
+Redirect "assumptions/C04.exec_block_in_caller_env" Print Assumptions exec_block_in_caller_env.
+Redirect "assumptions/C04.forwarded_block_still_runs_in_the_original_env" Print Assumptions forwarded_block_still_runs_in_the_original_env.
